@@ -60,6 +60,13 @@ def run_case(case):
             if d_ >= 4:
                 pulses[-1]["amp"] = ["ramp", d_, float(rng.uniform(3, 12)), float(10 ** rng.uniform(-3, -0.5))]
                 pulses[-1]["det"] = ["const", d_, float(rng.uniform(-5, 5))]
+        tail = bool(rng.random() < 0.3)
+        if tail:  # an amplitude that ends at exactly 0 (ramp to 0, Blackman): the cubic continued beyond the last sample is negative
+            pulses = [op for op in spec["ops"] if op["op"] == "pulse"]
+            d_ = seqgen.wf_duration(pulses[-1]["amp"])
+            if d_ >= 4:
+                pulses[-1]["amp"] = ["ramp", d_, float(rng.uniform(3, 12)), 0.0] if rng.random() < 0.5 else ["blackman", d_, float(rng.uniform(0.5, 3.0))]
+                pulses[-1]["det"] = ["const", d_, float(rng.uniform(-5, 5))]
         try:
             seq = seqgen.build(spec)
         except Exception:
@@ -67,6 +74,8 @@ def run_case(case):
             continue
         duration = adapter.expected_duration(seq, mod)
         dt = float(rng.choice([0.25, 0.3, 0.4, 0.5, 1, 1.7, 2.5, 3, 7.3, 10, 33]))
+        if tail and duration <= 400:  # steps that do not line up with the last nanosecond: a non-final step then straddles t = T-1 with its midpoint after it
+            dt = float(rng.choice([0.35, 0.55, 0.7, 0.8, 0.9, 1.4]))
         if duration / dt > 1500:
             dt = 1.0
         style = str(rng.choice(["ends", "lastns", "last2ns", "irrational", "rational"]))
